@@ -1,4 +1,3 @@
-(* WIP *)
 (* C27: the packet decoders are total.  Every decoder of Wire.v / Props.v / MochiCodec.v ends in
    Ok or Err — never in Panic (an unchecked index or slice out of range) and never out of fuel —
    and every offset it returns lies inside the buffer. *)
@@ -6,6 +5,8 @@ From MV Require Import Base.Val Base.Bytes Codec.Vbi Codec.Wire Codec.Props Code
 From Coq Require Import Lia ZifyBool ZifyN ZifyNat.
 Ltac Zify.zify_post_hook ::= Z.div_mod_to_equations.
 Open Scope N_scope.
+Set Warnings "-unused-intro-pattern".
+
 
 Arguments N.mul : simpl never.
 Arguments N.add : simpl never.
@@ -274,7 +275,7 @@ Ltac known :=
         | apply slice_from_post; lia ].
 Ltac kstep := pstep known; let a := fresh "a" in let H := fresh "H" in
   intros a H; try (destruct a as [? ?]); unfold fwd, inside in H; cbn beta iota in H;
-  try (destruct H as [? ?]); cbv zeta.
+  match type of H with _ /\ _ => destruct H as [? ?] | _ => idtac end; cbv zeta.
 
 Definition total {A} (r : res A) : Prop := post r (fun _ => True).
 
